@@ -67,12 +67,19 @@ fn validate_integrity(integrity: &ssri::Integrity) -> bool {
 
     // For each hash, check if it has a valid base64-encoded digest
     for hash in &integrity.hashes {
-        // Check if digest is valid base64 using the modern API
-        if base64::engine::general_purpose::STANDARD
-            .decode(&hash.digest)
-            .is_err()
-        {
-            return false;
+        // Check if digest is valid base64 of the algorithm's digest length (the CAS
+        // derives a file path from the digest and panics on a truncated one)
+        let expected_len = match hash.algorithm {
+            ssri::Algorithm::Sha512 => 64,
+            ssri::Algorithm::Sha384 => 48,
+            ssri::Algorithm::Sha256 => 32,
+            ssri::Algorithm::Sha1 => 20,
+            ssri::Algorithm::Xxh3 => 16,
+            _ => return false,
+        };
+        match base64::engine::general_purpose::STANDARD.decode(&hash.digest) {
+            Ok(digest) if digest.len() == expected_len => {}
+            _ => return false,
         }
     }
 
